@@ -45,6 +45,15 @@ func (a *Application) proxyHandler(w http.ResponseWriter, r *http.Request) {
 		return
 	}
 
+	// The routing strategy rejected the model: answer with the status it decided on
+	// (404 not found / 503 unavailable) instead of a generic proxy error.
+	if len(endpoints) == 0 {
+		if status := routingRejectionStatus(pr); status != 0 {
+			a.writeRoutingRejection(w, pr, status)
+			return
+		}
+	}
+
 	a.logRequestStart(pr, len(endpoints))
 
 	// Strip the route prefix before forwarding to the backend.
@@ -60,6 +69,34 @@ func (a *Application) proxyHandler(w http.ResponseWriter, r *http.Request) {
 	if err != nil {
 		a.handleProxyError(w, err)
 	}
+}
+
+// routingRejectionStatus returns the status code chosen by the model routing strategy
+// when it rejected the request, or 0 when the request was not rejected by routing.
+func routingRejectionStatus(pr *proxyRequest) int {
+	if pr == nil || pr.profile == nil || pr.profile.RoutingDecision == nil {
+		return 0
+	}
+	decision := pr.profile.RoutingDecision
+	if decision.Action != ports.RoutingActionRejected || decision.StatusCode < http.StatusBadRequest {
+		return 0
+	}
+	return decision.StatusCode
+}
+
+// writeRoutingRejection reports a routing rejection with the strategy's status and decision headers
+func (a *Application) writeRoutingRejection(w http.ResponseWriter, pr *proxyRequest, status int) {
+	decision := pr.profile.RoutingDecision
+	pr.requestLogger.Warn("Request rejected by model routing",
+		"model", pr.model, "strategy", decision.Strategy, "reason", decision.Reason, "status", status)
+
+	h := w.Header()
+	h.Set(constants.HeaderXOllaRoutingStrategy, decision.Strategy)
+	h.Set(constants.HeaderXOllaRoutingDecision, decision.Action)
+	if decision.Reason != "" {
+		h.Set(constants.HeaderXOllaRoutingReason, decision.Reason)
+	}
+	http.Error(w, fmt.Sprintf("Model %q is not available: %s", pr.model, decision.Reason), status)
 }
 
 func (a *Application) initializeProxyRequest(r *http.Request) *proxyRequest {
